@@ -121,6 +121,14 @@ CHECKS = {
         note="Bound: names <= 4 chars quick / 6 thorough. Assumes BASIC09 identifier comparison is case-insensitive, ASCII reading of regex classes, record field names are a separate namespace. The set of generated identifiers is lexed from real output of one program that uses every generator. Trusted: z3, rxsmt translation (self-checked against re.fullmatch on models).",
         design="DESIGN.md §3 E2/E5, §5 C09",
     ),
+    "C20": dict(
+        engine="b09m",
+        category=MC,
+        technique="symbolic execution of the real ecb.b09 procedure text by the BASIC09 machine over z3 strings/reals (interpreted LEN / MID$ / FIX, by-reference output parameters with arbitrary previous value), loops unrolled by path forking plus an inductive loop step, both readings of a zero-trip FOR; z3 decides result = Color BASIC definition on every path",
+        text="ecb_instr, ecb_string and ecb_read_filter are read from the real library at run time and executed symbolically: subject/pattern/argument strings of length <= 3 (4 thorough) over two letters, every start index, repeat counts up to 4 (7) by unrolling and -2..256 for the argument check plus one arbitrary loop iteration (inductive step), arbitrary previous value of the output parameter. For each path z3 decides that the output parameter holds the first match position at or after the start (0 if none) / the first character repeated count times (error exactly for count < 0 or an empty string) / 0 for the empty item and VAL(item) otherwise. A verdict that differs between the two zero-trip FOR readings is reported as inconclusive, never as pass or violation.",
+        note="No BASIC09 interpreter exists offline: semantics of the interpreted fragment are the trusted base (vf/tv/machine.py), counterexamples are confirmed by model evaluation only. The induction over loop iterations for large counts is a paper argument on top of the solver-checked step and bounds.",
+        design="DESIGN.md §5 C20",
+    ),
 }
 
 NOT_BUILT = {}
